@@ -1,0 +1,6 @@
+//go:build !verif
+
+package boot
+
+// verifPoint is a no-op unless built with the "verif" tag (verification hooks).
+func verifPoint(name, path string) {}
